@@ -189,7 +189,7 @@ def record_sessions(ctx, n, path):
     recs = []
     with open(path, "w") as f:
         for tid in range(1, n + 1):
-            nb = rng.choice([1, 2, 5, 30, 200])
+            nb = rng.choice([1, 2, 5, 30, 200] + ([1000, 4000] if n > 100 else []))
             B = [rng.randrange(NN) for _ in range(nb)]
             emb = embs[rng.choice(list(embs))]
             metric = rng.choice(["minkowski", "haversine"])
